@@ -11,3 +11,4 @@ func verifNote(tag string, v interface{})
 func verifNative() bool
 func verifMarshalOf(s string, v interface{}) bool
 func verifIsOpaque(s string) bool
+func verifSameNode(a, b interface{}) bool
